@@ -2,14 +2,14 @@
 
 CFG = {
     "modules": ["HumphreyModel.Props.C09"],
-    "rule": "proxy_request (300 ms budget) and the server's proxy_handler against scripted loopback upstreams on real "
+    "rule": "proxy_request (500 ms budget) and the server's proxy_handler against scripted loopback upstreams on real "
             "sockets: valid responses of 9 status codes x {Content-Length, chunked in random chunkings, close-delimited} "
             "sent whole, in two segments with a pause, or complete-then-silent; valid responses cut at byte offsets "
             "(every offset in the thorough tier, every third plus the last four in quick) then closed, or cut and "
             "then silent; garbage, malformed status line / header / length / chunk size; connection refused; "
-            "accept-then-silence; accept-then-close; one byte per 50 ms; route patterns with and without wildcard "
+            "accept-then-silence; accept-then-close; one byte per 50 ms; silence then a late partial response then silence; route patterns with and without wildcard "
             "for prefix stripping. Observed: the response returned, the exact bytes the upstream received, and wall "
-            "time against budget + 600 ms. LoadBalancer::select_target for round-robin and random over 1..4 targets "
+            "time against budget + 300 ms. LoadBalancer::select_target for round-robin and random over 1..4 targets "
             "from 1, 2, 4, 8 threads, logged in lock order. Non-trivial = every proxy case, load-balancer cases with "
             ">= 2 targets; distinct = distinct case line.",
     "exhaustive": False,
@@ -18,7 +18,7 @@ CFG = {
     "trusted_base": ["the scripted upstream threads of the harness and its wall-clock measurement",
                      "Mutex: selections are logged while the balancer's lock is held, so the log is a linearisation"],
     "assumptions": ["wall-clock behaviour (deadline enforcement, connect_timeout, kernel buffering) is observed, not proved",
-                    "pauses in the scripts are far below (20 ms) or far above (>= 1.5 s) the 300 ms budget",
+                    "pauses in the scripts are far below (20 ms), at 200-400 ms (late data inside the budget) or far above (>= 1.5 s) the 500 ms budget",
                     "proxy_handler's own budget is the fixed 5 s of the code; only non-stalling scripts go through it"],
     "design_ref": "6.9",
     "level_text": "proxy_answers: for every upstream behaviour the model of proxy_request returns either the fixed 502 or "
